@@ -328,8 +328,8 @@ def run(tier, seed, result):
             jobs.append((name, 2, 3000, True))
             jobs.append((name, None, 3000, False))
         else:
-            jobs.append((name, 3, 150000, True))
-            jobs.append((name, None, 150000, False))
+            jobs.append((name, 3, 25000, True))
+            jobs.append((name, None, 25000, False))
     total = 0
     notes = []
     complete = True
